@@ -9,6 +9,7 @@ Ordering information (instant ranks) is given here, by construction, never compu
 import json, os
 
 instants = [  # rank = index+1 ; strictly increasing
+    "1970-01-01T00:00:00Z",  # the Unix epoch: UnixNano() = 0, the zero value of every encoding
     "2019-03-01T00:00:00Z",
     "2020-01-01T00:00:00Z",
     "2020-06-01T12:30:00.5Z",
@@ -16,8 +17,9 @@ instants = [  # rank = index+1 ; strictly increasing
 ]
 # concrete spellings of instants: (rank, text). The first spelling of each rank is the canonical one.
 spellings = [(i + 1, t) for i, t in enumerate(instants)] + [
-    (2, "2020-01-01T02:00:00+02:00"),  # same instant as rank 2, other zone
-    (3, "2020-06-01T05:30:00.5-07:00"),
+    (3, "2020-01-01T02:00:00+02:00"),  # same instant as rank 3, other zone
+    (4, "2020-06-01T05:30:00.5-07:00"),
+    (4, "2020-06-01T18:00:00.5+05:30"),  # a non-whole-hour offset of the same instant
 ]
 
 nodes = [  # abstract = concrete
@@ -30,16 +32,17 @@ nodes = [  # abstract = concrete
 # abstract predicates: id, kind, rank
 preds = [
     {"id": "p", "kind": "imm", "n": 0},  # 1
-    {"id": "p", "kind": "tmp", "n": 2},  # 2
-    {"id": "p", "kind": "tmp", "n": 3},  # 3
+    {"id": "p", "kind": "tmp", "n": 3},  # 2
+    {"id": "p", "kind": "tmp", "n": 4},  # 3
     {"id": "q", "kind": "imm", "n": 0},  # 4
-    {"id": "q", "kind": "tmp", "n": 2},  # 5
-    {"id": "r", "kind": "tmp", "n": 1},  # 6
-    {"id": "q", "kind": "tmp", "n": 4},  # 7
-    {"id": "p", "kind": "tmp", "n": 1},  # 8
+    {"id": "q", "kind": "tmp", "n": 3},  # 5
+    {"id": "r", "kind": "tmp", "n": 2},  # 6
+    {"id": "q", "kind": "tmp", "n": 5},  # 7
+    {"id": "p", "kind": "tmp", "n": 2},  # 8
     {"id": "r", "kind": "imm", "n": 0},  # 9  never stored
-    {"id": "p", "kind": "tmp", "n": 4},  # 10 never stored
+    {"id": "p", "kind": "tmp", "n": 5},  # 10 never stored
     {"id": "zz", "kind": "imm", "n": 0},  # 11 never stored
+    {"id": "p", "kind": "tmp", "n": 1},  # 12 anchored at the Unix epoch
 ]
 # concrete predicate spellings: abs index + spelling index (0 for immutable)
 cpreds = []
@@ -71,7 +74,7 @@ objs = [
 # triples (s, p, o) by abstract index. The tour universes are prefixes (quick: 4, thorough: 6).
 triples = [
     (1, 1, 1),  # 1  a p@[]   b
-    (1, 2, 1),  # 2  a p@[i2] b
+    (1, 12, 1),  # 2  a p@[epoch] b   (near-miss of 1: same id, immutable vs anchored at the zero instant)
     (1, 3, 1),  # 3  a p@[i3] b
     (1, 4, 3),  # 4  a q@[]   true^^bool
     (1, 4, 4),  # 5  a q@[]   "true"^^text
@@ -86,7 +89,10 @@ triples = [
     (1, 4, 11),  # 14 a q@[] "1"^^text
     (2, 1, 1),  # 15 b p@[] b
     (3, 2, 5),  # 16 c p@[i2] p@[i2]
+    (1, 2, 1),  # 17 a p@[i2] b
 ]
+# triples stored with a non-canonical spelling of their predicate's anchor: triple index -> spelling text
+stored_spelling = {7: "2020-06-01T05:30:00.5-07:00", 12: "2020-01-01T02:00:00+02:00"}
 
 u = {
     "instants": instants,
@@ -95,9 +101,14 @@ u = {
     "preds": preds,
     "cpreds": cpreds,
     "objs": objs,
-    "triples": [{"s": s, "p": p, "o": o} for s, p, o in triples],
+    "triples": [{"s": s, "p": p, "o": o, "cp": 0} for s, p, o in triples],
     "graphs": ["?g1", "?g2", "?g3"],
 }
+for ti, text in stored_spelling.items():
+    t = u["triples"][ti - 1]
+    idx = [i + 1 for i, c in enumerate(cpreds) if c["abs"] == t["p"] and c["anchor"] == text]
+    assert idx, (ti, text)
+    t["cp"] = idx[0]
 out = os.path.join(os.path.dirname(os.path.dirname(os.path.abspath(__file__))), "universe", "store.json")
 with open(out, "w") as fh:
     json.dump(u, fh, indent=1)
